@@ -331,6 +331,19 @@ namespace rpc
             d()->process_field((buffer&)x);
         }
 
+        // aligned fields of an embedded message are not seen by
+        // _FilterAlignedFields; without these overloads they would match the
+        // catch-all above and be silently skipped by both sides
+        void process_field(aligned_buffer& x)
+        {
+            d()->process_field((buffer&)x);
+        }
+
+        void process_field(aligned_iovec_array& x)
+        {
+            d()->process_field((iovec_array&)x);
+        }
+
         void process_field(iovec_array& x)
         {
             assert("must be re-implemented in derived classes");
